@@ -468,6 +468,22 @@ def rule_types(rep):
             w.same("decltype(std::declval<%s>().%s)" % (P, call), "span<int, dyn>", "C16.types", call.split("(")[0] + "(dynamic)", "return type", P)
         w.must_hold("std::is_same<typename %s::index_type, std::size_t>::value" % P, "C16.types", "index_type", "is size_t", P)
     w.run(rep, defines=["TCB_SPAN_THROW_ON_CONTRACT_VIOLATION"])
+    # the bodies of the static sub-view members must instantiate for every count incl. 0, with both compilers (decltype above does not instantiate them)
+    for comp in ("g++", "clang++"):
+        w2 = WitnessTU('#include "xtl/xspan.hpp"\nusing xtl::span; constexpr std::ptrdiff_t dyn = xtl::dynamic_extent;\n')
+        fid = [0]
+
+        def fname():
+            fid[0] += 1
+            return "f%d" % fid[0]
+        for E in (4, "dyn"):
+            P = "span<int, %s>" % E
+            for n in (0, 1, 4):
+                w2.must_compile("void %s(%s s) { (void)s.first<%d>(); (void)s.last<%d>(); (void)s.subspan<%d>(); (void)s.subspan<%d, 0>(); (void)s.subspan<0, %d>(); }" % (fname(), P, n, n, n, n, n),
+                                "C16.types", "first/last/subspan<%d>" % n, "bodies instantiate", "%s, %s" % (P, comp))
+            w2.must_compile("void %s(%s s) { (void)s.first(0); (void)s.last(0); (void)s.subspan(0); (void)s.subspan(0, 0); (void)s[0]; (void)s.front(); (void)s.back(); (void)s.at(0); }" % (fname(), P),
+                            "C16.types", "dynamic sub-views", "bodies instantiate", "%s, %s" % (P, comp))
+        w2.run(rep, std="gnu++14" if comp == "g++" else "gnu++17", compiler=comp, defines=["TCB_SPAN_THROW_ON_CONTRACT_VIOLATION"])
 
 
 def run(tier):
